@@ -57,6 +57,18 @@ CLAIMS = {
          "order, deadline = collection timeout, no mixing of destinations, own message when the timeout is zero) for all "
          "schedules incl. requests at the closing instant of a window and during stop, and catches a spec mutant; the monitor "
          "judges real queue_send histories with bursts up to 40 entries", "DESIGN.md §7 C15", TECH, TRUST),
+ "C13": ("model_checking",
+         "TLC checks the find task of spec/SD.tla (initial wait, 1 + repetitions rounds at doubling delays, early end, shared "
+         "discovery store) against Mon_C13 (only watched and not-yet-found filters, ids / TTL / multicast, round instants, "
+         "bound on the number of rounds, silence once everything is found; both readings accepted for offers arriving in the "
+         "tick of a round) and catches a spec mutant; the monitor judges real histories with 1-4 wildcard filters in five "
+         "timing configurations; traces validated against SDTrace.tla", "DESIGN.md §7 C13", TECH, TRUST),
+ "C14": ("model_checking",
+         "TLC checks ServiceSubscriber of spec/SD.tla (request list, alive flag, deferred sends, refresh task) against "
+         "Mon_C14, which plays the server: entries applied per destination in transmission order must leave exactly the "
+         "requested set while running and nothing after stop, with correct TTL / endpoint option / destination and refresh "
+         "gaps; a spec mutant (StopSubscribe overtaking a queued Subscribe) is caught; the monitor judges real histories over "
+         "IPv4/IPv6 x UDP/TCP eventgroups and three servers", "DESIGN.md §7 C14", TECH, TRUST),
 }
 claimed = sorted(CLAIMS)
 m = {"version": 1, "setup_cmd": "./setup.sh",
